@@ -357,7 +357,7 @@ FLAVOURS = {
     "C02": dict(fault=0.3, seeded=0.08, disabled=0.15, observers=0, pool=0.0, enable_cfg=0.3, rp=0.2,
                 hostctx=0.05, graph_drop=0.1),
     "C03": dict(fault=0.45, seeded=0.05, disabled=0.05, observers=2, pool=0.1, enable_cfg=0.0, rp=0.35,
-                hostctx=0.3, graph_drop=0.05),
+                hostctx=0.3, graph_drop=0.05, deep=0.0004),
     "C12": dict(fault=0.3, seeded=0.05, disabled=0.05, observers=1, pool=0.45, enable_cfg=0.05, rp=0.15,
                 hostctx=0.0, graph_drop=0.0),
     "C04": dict(fault=0.25, seeded=0.08, disabled=0.05, observers=1, pool=1.0, enable_cfg=0.0, rp=0.3,
@@ -374,6 +374,23 @@ def gen_program(st, flavour, tier):
     nmax = 16 if big else 12
     n = 1 + int(rp_.random() ** 1.5 * nmax)          # small programs favoured
     nclusters = rp_.choice([1, 1, 2, 2, 3, 4])
+    if rk.random() < fl.get("deep", 0.0):
+        # a very deep chain: one failing datasource with hundreds of datasources stacked on it (no registry point in
+        # between), plus an unrelated component that must not notice.  Depth is a size knob like any other.
+        depth = rk.choice([300, 520, 600, 700])
+        nodes = []
+        for i in range(depth):
+            nodes.append({"name": "c%03d" % i, "type": "datasource", "h": rp_.getrandbits(40), "req": [i - 1] if i else [], "groups": [],
+                          "opt": [], "enabled": True, "out": "value", "work": 0.0, "multi": False, "elems": 0})
+        nodes[rk.choice([0, 0, 1, 5])]["out"] = rf.choice(["boom", "ce", "cpe", "verr"])
+        nodes.append({"name": "c%03d" % depth, "type": "component", "h": rp_.getrandbits(40), "req": [], "groups": [], "opt": [],
+                      "enabled": True, "out": "value", "work": 0.0})
+        if rk.random() < 0.5:
+            nodes.append({"name": "c%03d" % (depth + 1), "type": "rp", "h": rp_.getrandbits(40), "req": [], "groups": [], "opt": [],
+                          "enabled": True, "out": "value", "work": 0.0, "impls": [depth - 1], "late": 0, "prio": 0})
+        return {"w": "w1", "flavour": flavour, "nodes": nodes, "hostctx": False, "sac": False, "seeded": [], "seed_none": [],
+                "store_skips": rk.random() < 0.5, "debug_log": False, "observers": [], "targets": None, "graph_drop": [],
+                "enable_cfg": None, "deep": depth}
     wide = rk.random() < fl.get("wide", 0.0)
     if wide:
         # many unconnected components: more sub-graphs than any batching constant a pool driver might use
@@ -581,6 +598,8 @@ def gen_driver(st, case, flavour, kinds=None):
         else:
             kinds = ["run", "run", "order", "order", "incr", "all", "incr_n", "all_n"]
     k = rs.choice(kinds)
+    if case.get("deep"):
+        k = rs.choice(["run", "incr", "all"])          # (no forced orders or pools for a 700-node chain: the depth is the point)
     if k.endswith("_n") and not fresh_brokers_ok(case):
         k = k[:-2]
     d = {"kind": k}
